@@ -233,4 +233,226 @@ theorem pre_sim (F : Frame inpS inpW δ) (hops : OpsSim env.ops inpS inpW δ K) 
 
 end
 
+/-! ### the `memchr` scan -/
+
+theorem findByte_lt (nd : UInt8) : ∀ (xs : Bytes) (p : Nat), findByte nd xs = some p → p < xs.length := by
+  intro xs
+  induction xs with
+  | nil => intro p h; cases h
+  | cons x xs ih =>
+    intro p h
+    simp only [findByte] at h
+    split at h
+    · cases h; simp
+    · simp only [Option.map_eq_some_iff] at h
+      obtain ⟨q, hq, rfl⟩ := h
+      have := ih q hq
+      simp only [List.length_cons]; omega
+
+section
+variable {inpS inpW : Bytes} {δ : Nat}
+
+/-- what follows position `n + δ` of the whole input -/
+theorem Frame.drop (F : Frame inpS inpW δ) (n : Nat) :
+    ∃ post', inpW.drop (n + δ) = inpS.drop n ++ post' ∧ (Closed inpS inpW δ → post' = []) := by
+  obtain ⟨pre, post, h1, h2⟩ := F.ex
+  subst h2 h1
+  refine ⟨post.drop (n - inpS.length), ?_, fun hc => ?_⟩
+  · rw [List.append_assoc, List.drop_append, List.drop_eq_nil_of_le (by omega), List.nil_append,
+      show n + pre.length - pre.length = n by omega, List.drop_append]
+  · unfold Closed at hc
+    simp only [List.length_append] at hc
+    have : post = [] := List.eq_nil_of_length_eq_zero (by omega)
+    rw [this]; simp
+
+/-- the scan of the whole run, `skip` needle-free bytes behind, against the scan of the split run -/
+theorem memchr_rel (F : Frame inpS inpW δ) (nd : UInt8) {nps npw skip : Nat} (hsk : SkipOk nd inpW npw skip)
+    (hnp : npw + skip = nps + δ) :
+    match findByte nd (inpS.drop nps) with
+    | some p => findByte nd (inpW.drop npw) = some (p + skip) ∧ nps + p < inpS.length
+    | none =>
+      (Closed inpS inpW δ → findByte nd (inpW.drop npw) = none ∧
+        (inpW.drop npw).length = skip + (inpS.drop nps).length) ∧
+      SkipOk nd inpW npw (skip + (inpS.drop nps).length) := by
+  obtain ⟨l, r, hlr, hl, hnl⟩ := hsk
+  have hr : r = inpW.drop (nps + δ) := by
+    have : (inpW.drop npw).drop skip = r := by
+      rw [hlr, List.drop_append, List.drop_eq_nil_of_le (by omega), List.nil_append, show skip - l.length = 0 by omega]
+      rfl
+    rw [← this, List.drop_drop, ← hnp]
+  obtain ⟨post', hp1, hp2⟩ := F.drop nps
+  rw [hp1] at hr
+  subst hr
+  rw [hlr, findByte_append, hnl]
+  simp only
+  rw [findByte_append]
+  cases hf : findByte nd (inpS.drop nps) with
+  | some p =>
+    simp only [Option.map_some, hl]
+    have := findByte_lt nd _ p hf
+    simp only [List.length_drop] at this
+    exact ⟨trivial, by omega⟩
+  | none =>
+    simp only
+    refine ⟨fun hc => ?_, ⟨l ++ inpS.drop nps, post', by rw [List.append_assoc]; exact hlr, by simp [hl], ?_⟩⟩
+    · rw [hp2 hc]
+      simp [findByte, hl]
+    · rw [findByte_append, hnl]
+      simp only [hf, Option.map_none]
+
+end
+
+section
+variable {env : Env κ} {inpS inpW : Bytes} {δ : Nat} {K : Nat → κ → κ → Prop}
+
+/-- at a boundary the whole run's `ch_sequence_matching_start` is clear -/
+theorem leaveSeq_r_of_rel {d skip : Nat} {ab : Ab} {sm : SeqMode} {ms mw : M κ} (h : MRel δ d skip ab sm ms mw)
+    (hsm : sm ≠ .inSeq) : (leaveSeq mw).r = mw.r := by
+  obtain ⟨hc, hr, _, _⟩ := h
+  obtain ⟨cs, rs, xs⟩ := ms
+  obtain ⟨cw, rw, xw⟩ := mw
+  cases rs with
+  | lexer ls =>
+    cases rw with
+    | lexer lw => rfl
+    | scanner sw => exact hr.elim
+  | scanner ss =>
+    cases rw with
+    | lexer lw => exact hr.elim
+    | scanner sw =>
+      obtain ⟨_, _, h3⟩ := hr
+      have hb : sw.chSeqStart = none := by
+        cases sm with
+        | none => exact h3.2
+        | stale => exact h3
+        | inSeq => exact absurd rfl hsm
+      show Regs.scanner { sw with chSeqStart := none } = Regs.scanner sw
+      rw [← hb]
+
+theorem brkParams_mk {sd : StateDef} {d skip : Nat} {ab : Ab} {sm : SeqMode} {ms0 mw0 : M κ}
+    (h : MRel δ d skip ab sm ms0 mw0) (hsm : sm ≠ .inSeq) (X Y : Nat)
+    (hnp : mw0.c.nextPos ≤ X - 1 + δ)
+    (hskip : 0 < X - 1 + δ - mw0.c.nextPos → ∃ nd, sd.memchr = some nd ∧ SkipOk nd inpW mw0.c.nextPos (X - 1 + δ - mw0.c.nextPos)) :
+    BrkParams inpW sd δ { ms0 with c := { ms0.c with nextPos := X } } { mw0 with c := { mw0.c with nextPos := Y } } mw0
+      mw0.c.nextPos :=
+  ⟨hnp, hskip, rfl, rfl, by
+    rw [leaveSeq_r_congr (m := mw0) (m' := { mw0 with c := { mw0.c with nextPos := Y } }) rfl]
+    exact (leaveSeq_r_of_rel h hsm).symm⟩
+
+/-- **Consumption and dispatch.** -/
+theorem consume_sim (F : Frame inpS inpW δ) (hops : OpsSim env.ops inpS inpW δ K)
+    {fs : FlagMap} {st : StateId} {sd : StateDef} {d skip : Nat} {sm : SeqMode} {ms0 mw0 : M κ}
+    (cx : StepCtx env.tbl fs st sd ms0.c) (hrel : MRel δ d skip (fs st).2 sm ms0 mw0) (hK : K d ms0.x.sink mw0.x.sink)
+    (hsm : sm = .none ∨ (sm = .stale ∧ hasSeq sd = true)) (hdebt : 0 < d → hasEoc sd = true)
+    (hskip : 0 < skip → ∃ nd, sd.memchr = some nd ∧ SkipOk nd inpW mw0.c.nextPos skip)
+    (hil : ms0.c.isLast = true → Closed inpS inpW δ) :
+    LockOut env.tbl fs inpW δ K (consume env inpS sd ms0) (consume env inpW sd mw0) ∨
+    (¬ Closed inpS inpW δ ∧ BreakOut env.tbl fs env.ops inpS inpW δ d ms0.x mw0 (consume env inpS sd ms0)) := by
+  have hsm' : sm ≠ .inSeq := by
+    rcases hsm with h | ⟨h, _⟩ <;> rw [h] <;> intro hh <;> cases hh
+  have hnp := hrel.c.nextPos
+  unfold consume
+  cases hmem : sd.memchr with
+  | none =>
+    have hskip0 : skip = 0 := by
+      rcases Nat.eq_zero_or_pos skip with h | h
+      · exact h
+      · obtain ⟨nd, h1, _⟩ := hskip h; rw [hmem] at h1; cases h1
+    subst hskip0
+    simp only
+    have hm1 := hrel.consume hsm' 1 1 (Nat.le_refl 1) (by omega)
+    rw [Ab.inStep] at hm1
+    have hbp := brkParams_mk (inpW := inpW) (sd := sd) hrel hsm' (ms0.c.nextPos + 1) (mw0.c.nextPos + 1) (by omega)
+      (fun h => by omega)
+    have hcx1 : StepCtx env.tbl fs st sd ({ ms0 with c := { ms0.c with nextPos := ms0.c.nextPos + 1 } } : M κ).c :=
+      ⟨cx.look, cx.ok, cx.wf, cx.st_eq, cx.ent⟩
+    by_cases hlt : ms0.c.nextPos < inpS.length
+    · have hch : inpW[mw0.c.nextPos]? = inpS[ms0.c.nextPos]? := by
+        rw [show mw0.c.nextPos = ms0.c.nextPos + δ by omega]; exact F.get hlt
+      rw [hch]
+      have hsome : inpS[ms0.c.nextPos]?.isSome = true := by
+        rw [List.getElem?_eq_getElem hlt]; rfl
+      exact dispatch_lock F hops hcx1 _ hm1 hK hsm hdebt (fun _ => by show ms0.c.nextPos + 1 ≤ _; omega) hil
+        (fun hn => by rw [hn] at hsome; cases hsome) hbp
+    · have hnone : inpS[ms0.c.nextPos]? = none := List.getElem?_eq_none (by omega)
+      rw [hnone]
+      by_cases hcl : Closed inpS inpW δ
+      · have hch : inpW[mw0.c.nextPos]? = none := by
+          rw [show mw0.c.nextPos = ms0.c.nextPos + δ by omega, F.get_closed hcl, hnone]
+        rw [hch]
+        exact dispatch_lock F hops hcx1 none hm1 hK hsm hdebt (fun h => by cases h) hil (fun _ => hcl) hbp
+      · right
+        have hl : ms0.c.isLast = false := by
+          cases hh : ms0.c.isLast with
+          | false => rfl
+          | true => exact absurd (hil hh) hcl
+        exact ⟨hcl, dispatch_end hops hcx1 hm1 hsm hdebt hl hbp⟩
+  | some nd =>
+    simp only
+    have hns : hasSeq sd = false := cx.ok.mem (by rw [hmem]; rfl)
+    have hsm0 : sm = .none := by
+      rcases hsm with h | ⟨_, h⟩
+      · exact h
+      · rw [hns] at h; cases h
+    subst hsm0
+    have hsk : SkipOk nd inpW mw0.c.nextPos skip := by
+      rcases Nat.eq_zero_or_pos skip with h | h
+      · subst h; exact ⟨[], inpW.drop mw0.c.nextPos, rfl, rfl, rfl⟩
+      · obtain ⟨nd', h1, h2⟩ := hskip h
+        rw [hmem] at h1; cases h1; exact h2
+    have hmr := memchr_rel F nd hsk (by omega : mw0.c.nextPos + skip = ms0.c.nextPos + δ)
+    cases hf : findByte nd (inpS.drop ms0.c.nextPos) with
+    | some p =>
+      rw [hf] at hmr
+      obtain ⟨hfw, hplt⟩ := hmr
+      rw [hfw]
+      simp only
+      have hm1 := hrel.consume hsm' (1 + p) (1 + (p + skip)) (by omega) (by omega)
+      rw [Ab.inStep] at hm1
+      have hcx1 : StepCtx env.tbl fs st sd ({ ms0 with c := { ms0.c with nextPos := ms0.c.nextPos + (1 + p) } } : M κ).c :=
+        ⟨cx.look, cx.ok, cx.wf, cx.st_eq, cx.ent⟩
+      left
+      rw [show ms0.c.nextPos + 1 + p = ms0.c.nextPos + (1 + p) by omega,
+        show mw0.c.nextPos + 1 + (p + skip) = mw0.c.nextPos + (1 + (p + skip)) by omega]
+      exact dispatch_tail_lock F hops hcx1 (some nd) (runSeqArms_noSeq inpS _ sd.arms _ hns)
+        (runSeqArms_noSeq inpW _ sd.arms _ hns) hm1 rfl rfl rfl hK hdebt
+        (fun _ => by show ms0.c.nextPos + (1 + p) ≤ _; omega) (fun h => by cases h)
+    | none =>
+      rw [hf] at hmr
+      obtain ⟨hclosed, hsk'⟩ := hmr
+      simp only
+      have hcx1 : StepCtx env.tbl fs st sd
+          ({ ms0 with c := { ms0.c with nextPos := ms0.c.nextPos + (1 + (inpS.drop ms0.c.nextPos).length) } } : M κ).c :=
+        ⟨cx.look, cx.ok, cx.wf, cx.st_eq, cx.ent⟩
+      by_cases hcl : Closed inpS inpW δ
+      · obtain ⟨hfw, hlen⟩ := hclosed hcl
+        rw [hfw]
+        simp only
+        have hm1 := hrel.consume hsm' (1 + (inpS.drop ms0.c.nextPos).length) (1 + (inpW.drop mw0.c.nextPos).length)
+          (by omega) (by omega)
+        rw [Ab.inStep] at hm1
+        left
+        rw [show ms0.c.nextPos + 1 + (inpS.drop ms0.c.nextPos).length = ms0.c.nextPos + (1 + (inpS.drop ms0.c.nextPos).length) by omega,
+          show mw0.c.nextPos + 1 + (inpW.drop mw0.c.nextPos).length = mw0.c.nextPos + (1 + (inpW.drop mw0.c.nextPos).length) by omega]
+        exact dispatch_tail_lock F hops hcx1 none (runSeqArms_noSeq inpS _ sd.arms _ hns)
+          (runSeqArms_noSeq inpW _ sd.arms _ hns) hm1 rfl rfl rfl hK hdebt (fun h => by cases h) (fun _ => hcl)
+      · right
+        have hl : ms0.c.isLast = false := by
+          cases hh : ms0.c.isLast with
+          | false => rfl
+          | true => exact absurd (hil hh) hcl
+        have hm1 := hrel.consume hsm' (1 + (inpS.drop ms0.c.nextPos).length)
+          (1 + (inpS.drop ms0.c.nextPos).length + skip) (by omega) (by omega)
+        rw [Ab.inStep] at hm1
+        have hbp := brkParams_mk (inpW := inpW) (sd := sd) hrel hsm' (ms0.c.nextPos + (1 + (inpS.drop ms0.c.nextPos).length))
+          (mw0.c.nextPos + (1 + (inpS.drop ms0.c.nextPos).length + skip)) (by omega)
+          (fun _ => ⟨nd, hmem, by
+            rw [show ms0.c.nextPos + (1 + (inpS.drop ms0.c.nextPos).length) - 1 + δ - mw0.c.nextPos
+              = skip + (inpS.drop ms0.c.nextPos).length by omega]
+            exact hsk'⟩)
+        rw [show ms0.c.nextPos + 1 + (inpS.drop ms0.c.nextPos).length = ms0.c.nextPos + (1 + (inpS.drop ms0.c.nextPos).length) by omega]
+        exact ⟨hcl, dispatch_end hops hcx1 hm1 (Or.inl rfl) hdebt hl hbp⟩
+
+end
+
 end LolHtml.Model.Chunk
